@@ -325,6 +325,7 @@ func writeEvidence(opt Options, spec *PropertySpec, results []*JobResult, known 
 	violations := 0
 	harnesses := map[string]bool{}
 	merges, forks, pruned, steps := 0, 0, 0, 0
+	asserts, assertsConst := 0, 0
 	for _, r := range results {
 		if r == nil {
 			continue
@@ -335,6 +336,8 @@ func writeEvidence(opt Options, spec *PropertySpec, results []*JobResult, known 
 		forks += r.Stat.Forks + r.Stat.Splits
 		pruned += r.Stat.Pruned
 		steps += r.Stat.Steps
+		asserts += r.Stat.Asserts
+		assertsConst += r.Stat.AssertsConst
 		obligations += r.Obligations
 		discharged += r.Discharged
 		queries += r.Solver.Queries
@@ -398,30 +401,32 @@ func writeEvidence(opt Options, spec *PropertySpec, results []*JobResult, known 
 		"seed":        opt.Seed,
 		"level":       "model_checking",
 		"coverage": map[string]interface{}{
-			"states":                        states,
-			"transitions":                   transitions,
-			"traces_validated_against_impl": witnessOK,
-			"samples":                       samples,
-			"explanation":                   "bounded symbolic execution of the real functions (go/ssa -> SMT-LIB2 bit-vectors, z3); states = final symbolic states (merged paths), transitions = branch decisions (forks, splits, solver-pruned sides); every obligation is one solver query over all inputs within the case's bounds",
-			"functions_encoded":             fnames,
-			"cases":                         bounds,
-			"obligations":                   obligations,
-			"discharged":                    discharged,
-			"solver_queries":                queries,
-			"solver_sat":                    sat,
-			"solver_unsat":                  unsat,
-			"solver_unknown":                unknown,
-			"solver_seconds":                round2(solverS),
-			"slowest_query_seconds":         round2(maxQ),
-			"state_merges":                  merges,
-			"forks":                         forks,
-			"pruned_branches":               pruned,
-			"ssa_instructions_executed":     steps,
-			"inconclusive":                  inconclusive,
-			"outside_the_claim":             spec.Outside,
-			"known_findings":                kf,
-			"solver":                        solverBin,
-			"timing":                        extra,
+			"states":                               states,
+			"transitions":                          transitions,
+			"traces_validated_against_impl":        witnessOK,
+			"samples":                              samples,
+			"explanation":                          "bounded symbolic execution of the real functions (go/ssa -> SMT-LIB2 bit-vectors, z3); states = final symbolic states (merged paths), transitions = branch decisions (forks, splits, solver-pruned sides); every obligation is one solver query over all inputs within the case's bounds",
+			"functions_encoded":                    fnames,
+			"cases":                                bounds,
+			"obligations":                          obligations,
+			"discharged":                           discharged,
+			"solver_queries":                       queries,
+			"solver_sat":                           sat,
+			"solver_unsat":                         unsat,
+			"solver_unknown":                       unknown,
+			"solver_seconds":                       round2(solverS),
+			"slowest_query_seconds":                round2(maxQ),
+			"state_merges":                         merges,
+			"forks":                                forks,
+			"pruned_branches":                      pruned,
+			"ssa_instructions_executed":            steps,
+			"assertions_evaluated":                 asserts,
+			"assertions_decided_by_simplification": assertsConst,
+			"inconclusive":                         inconclusive,
+			"outside_the_claim":                    spec.Outside,
+			"known_findings":                       kf,
+			"solver":                               solverBin,
+			"timing":                               extra,
 		},
 		"assumptions": append([]string{
 			"soundness of the SSA->SMT translation (validated on every run by replaying witness paths natively and comparing observables)",
